@@ -26,3 +26,7 @@ struct{F0 [2]*int;F1 string} -> string
 complex128;[]int -> int
 []complex128 -> string
 *complex128;string -> int;bool
+# re-entrant histories with a real hash collision between an argument and its inner argument (seeded change C18-m4; cases in reentrant.re)
+[]int -> int
+string -> int
+[]string;int -> string
